@@ -112,6 +112,16 @@ func (p *C17) Gen(seed uint64, i int, tier string) *scen.Scenario {
 		}
 		qop := scen.Op{Op: "level_query", Kind: "extra", Lvl: v, S: []string{title, strings.ToLower(title), strings.ToUpper(title)}}
 		sc.Setup = append(sc.Setup, qop, op, qop)
+		if len(usedV) > 0 && r.Chance(1, 2) {
+			// a level registered earlier must still be gated and routed as registered
+			ev := scen.Pick(r, usedV)
+			gl2 := scen.Pick(r, []int{model.Error, model.Warn, model.Info, model.Debug, model.Trace})
+			sc.Setup = append(sc.Setup, scen.Op{Op: "set", L: 2, Kind: "level", Lvl: gl2}, scen.Op{Op: "set_debug_mode", B: []bool{false}})
+			tk++
+			sc.Setup = append(sc.Setup, scen.Op{Op: "log", L: 2, Entry: "LogAttrs", Lvl: ev, Msg: "g" + tok(tk), Tok: tok(tk), Probe: true, Kind: "gate", I: int64(gl2)})
+			tk++
+			sc.Setup = append(sc.Setup, scen.Op{Op: "log", L: 1, Entry: "Logit", Lvl: ev, Msg: "r" + tok(tk), Tok: tok(tk), Probe: true, Kind: "route"})
+		}
 		usedV = append(usedV, v)
 		usedT = append(usedT, title)
 		// probes: gate logger at a random ordinal level, then the routing logger
